@@ -188,7 +188,7 @@ func C17(r *Run) {
 	var wg sync.WaitGroup
 	sem := make(chan struct{}, Cores())
 	for i := 0; i < n; i++ {
-		root, ok := requiredTree(g, 3).(map[string]any)
+		root, ok := requiredTree(g, 3+g.N(2)).(map[string]any)
 		if !ok {
 			root = map[string]any{"v": requiredTree(g, 2)}
 		}
@@ -213,7 +213,7 @@ func C17(r *Run) {
 	}
 	wg.Wait()
 	finishEvalFamily(r, "C17", st, sessions, []string{"RequiredModel = Skeleton", "OnlyMarkers", "Idempotent", "AgreesWithBkl"},
-		"model: all 2^5 placements of $required on a 5-position tree (map values, nested map, list entries, map inside a list) x 7 upper layers (some satisfying), each run through the real bklr (output, idempotence) and bkl (agreement); driver: random trees with $required at random map values and list entries to depth 3, 1-3 layers in mixed formats; TLC judges the decoded real output against the declarative Skeleton")
+		"model: all 2^7 placements of $required on a 7-position tree (map values, nested map, list entries, map inside a list, two levels below a list entry, below a list nested in a list) x 7 upper layers (some satisfying), each run through the real bklr (output, idempotence) and bkl (agreement); driver: random trees with $required at random map values and list entries to depth 3-4, 1-3 layers in mixed formats; TLC judges the decoded real output against the declarative Skeleton")
 }
 
 // modelToolCases runs MC_Tools for a family and hands every printed case to f.
